@@ -95,6 +95,11 @@ fn main() {
                         (d.extra_del(a as usize, &vh::unhex(key)), -1)
                     }
                     "nop" => ("ok".to_string(), -1),
+                    "sleep" => {
+                        // wall-clock time passes (a = milliseconds); to the specification this is a stuttering step
+                        std::thread::sleep(std::time::Duration::from_millis(a.max(0) as u64));
+                        ("ok".to_string(), -1)
+                    }
                     "pstore" => {
                         let evs: Vec<usize> = op["evs"].as_array().map(|v| v.iter().filter_map(|x| x.as_u64()).map(|x| x as usize).collect()).unwrap_or_default();
                         (d.pstore(&evs), -1)
